@@ -300,6 +300,61 @@ def big_project(arg):
         p.close()
 
 
+def shadow_project(backend):
+    """cfg.h exists in two include directories; the first copy is renamed
+    away, comes back, is deleted: each time the object must be compiled
+    again against the copy that is now found"""
+    files = {'inc1/cfg.h': '#define K 1\n', 'inc2/cfg.h': '#define K 20\n',
+             'main.c': '#include <stdio.h>\n#include "cfg.h"\n'
+             'int main(void){printf("%d\\n", K);return 0;}\n',
+             'build.bfg': "project('p')\nexecutable('prog', ['main.c'], "
+             "includes=['inc1', 'inc2'])\n"}
+    p = regen.Proj(files, backend=backend)
+    ev = {'op': 'shadow', 'f': '', 'g': '', 'steps': [], 'note': ''}
+    try:
+        p.env['CC'] = make_wrapper(p.root)
+        for k in ('CXX', 'AR'):
+            p.env.pop(k, None)
+        rc, out = p.configure()
+        cclog = os.path.join(p.root, 'cc.log')
+        a, b = os.path.join(p.src, 'inc1', 'cfg.h'), \
+            os.path.join(p.src, 'inc1', 'cfg.h.away')
+
+        def step(want):
+            if os.path.exists(cclog):
+                os.remove(cclog)
+            p.tick()
+            rc, out = p.tool(env={'VERIF_CCLOG': cclog})
+            val = -1
+            prog = os.path.join(p.bld, 'prog')
+            if os.path.exists(prog):
+                r = subprocess.run([prog], capture_output=True, text=True)
+                try:
+                    val = int(r.stdout.strip())
+                except ValueError:
+                    pass
+            ev['steps'].append({'exit': rc, 'output': val, 'want': want,
+                                'recompiled': os.path.exists(cclog)})
+            if rc and not ev['note']:
+                ev['note'] = out[-300:]
+        step(1)
+        p.tick()
+        os.rename(a, b)
+        step(20)
+        p.tick()
+        # (it comes back with its old time stamp - no build tool that goes
+        # by time stamps can notice that - and the source is edited)
+        os.rename(b, a)
+        os.utime(os.path.join(p.src, 'main.c'))
+        step(1)
+        p.tick()
+        os.remove(a)
+        step(20)
+        return [ev]
+    finally:
+        p.close()
+
+
 def main(argv):
     ck = Check('C07', argv)
     names_ok = [n for n, ok in zip(CANDIDATES, pmap(reference_ok, CANDIDATES))
@@ -404,6 +459,20 @@ def main(argv):
     traces += btr
     res += bres
     jobs += [([], b, {'h1': 'common.h', 'big': str(n_)}) for b, n_ in bjobs]
+    # one header name in two include directories
+    sres = pmap(shadow_project, ['make', 'ninja'], jobs=2)
+    ns0 = len(traces)
+    stq = [{'id': ns0 + i + 1, 'events': [
+        {k: v for k, v in e.items() if k != 'note'} for e in ev]}
+        for i, ev in enumerate(sres)]
+    rej4, st4 = validate_traces('Incr_Trace', trace_cfg(False), stq, chunk=60)
+    rej.update(rej4)
+    for k in ('distinct', 'generated'):
+        st[k] += st4[k]
+    traces += stq
+    res += sres
+    jobs += [([], b, {'h1': 'cfg.h', 'shadow': '1'}) for b in ('make',
+                                                               'ninja')]
     for k in ('distinct', 'generated'):
         st[k] += st2[k]
     ck.traces = len(traces)
